@@ -12,6 +12,7 @@ import TzVerif.Model.TzFile
 import TzVerif.Spec.TzGrammar
 import TzVerif.Proofs.TzReader
 import TzVerif.Proofs.TzParse
+import TzVerif.Proofs.SrcEqTzString
 
 namespace TzVerif.C09
 open TzVerif.Model TzVerif.Proofs
@@ -73,5 +74,32 @@ example :
     (parsePosixTz (ascii "EST5EDT,M3.2.0/-1,M11.1.0") false).isOk = false ∧
     (parsePosixTz (ascii "EST5EDT,M3.2.0/-1,M11.1.0") true).isOk = true := by
   decide +kernel
+
+/-! ### The same about the source text
+`TzVerif.Src.parse_posix_tz` and its helpers are src/parse/tz_string.rs and src/parse/utils.rs translated to Lean on
+every run (tools/rs2lean.py, DESIGN §13), the `&mut Cursor` threaded through every call. They equal the model's
+parser, so the grammar theorems of this file are about the code as it is now. -/
+
+theorem translated_source_is_the_model :
+    (∀ s ext, Src.parse_posix_tz s ext = parsePosixTz s ext) ∧
+    (∀ c ext, Src.parse_rule_block c ext = parseRuleBlock c ext) ∧
+    (∀ c, Src.parse_rule_day c = parseRuleDay c) ∧
+    (∀ c, Src.parse_rule_time c = parseRuleTime c) ∧ (∀ c, Src.parse_rule_time_extended c = parseRuleTimeExtended c) ∧
+    (∀ c, Src.parse_offset c = parseOffset c) ∧ (∀ c, Src.parse_signed_hhmmss c = parseSignedHhmmss c) ∧
+    (∀ c, Src.parse_hhmmss c = parseHhmmss c) ∧ (∀ c, Src.parse_time_zone_designation c = parseTimeZoneDesignation c) ∧
+    (∀ c f, Src.read_while c f = .ok (readWhile c f)) ∧ (∀ c f, Src.read_until c f = .ok (readUntil c f)) ∧
+    (∀ c (n : Nat), Src.read_exact c (n : Int) = readExact c n) :=
+  ⟨SrcEq.parse_posix_tz_eq, SrcEq.parse_rule_block_eq, SrcEq.parse_rule_day_eq, SrcEq.parse_rule_time_eq,
+   SrcEq.parse_rule_time_extended_eq, SrcEq.parse_offset_eq, SrcEq.parse_signed_hhmmss_eq, SrcEq.parse_hhmmss_eq,
+   SrcEq.parse_time_zone_designation_eq, SrcEq.read_while_eq, SrcEq.read_until_eq, SrcEq.read_exact_eq⟩
+
+/-- COMPLETE and SOUND, about the translated parser -/
+theorem parse_complete_src (ext : Bool) (b : Bytes) (t : Spec.TzAst) (h : Spec.Sentence ext b t) :
+    okOf (Src.parse_posix_tz b ext) = (Spec.denoteParts ext t).bind Spec.build := by
+  rw [SrcEq.parse_posix_tz_eq]; exact parse_complete ext b t h
+
+theorem parse_sound_src (ext : Bool) (b : Bytes) (r : TransitionRule) (h : Src.parse_posix_tz b ext = .ok r) :
+    ∃ t p, Spec.Sentence ext b t ∧ Spec.denoteParts ext t = some p ∧ Spec.build p = some r :=
+  parse_sound ext b r (SrcEq.parse_posix_tz_eq b ext ▸ h)
 
 end TzVerif.C09
